@@ -754,6 +754,84 @@ class Sugar:
             self.expanded.append((bi, d))
             return True
 
+        if nm == "collect" and len(t["args"]) == 1:
+            # `chain.collect::<Vec<_> | HashSet<_> | HashMap<_, _>>()` (optionally inside Result / Option)
+            # over recognised lazy adaptors: an explicit loop that pushes / inserts each item
+            ch = self.chain_of(t["args"][0])
+            if ch is None or not ch[1]:
+                return False
+            base, adaptors = ch
+            if any(resolve_closure(self.facts, self.blocks, a[1])[0] is None for a in adaptors):
+                return False
+            dty = t.get("dest_ty") or ""
+            wrap = None
+            inner = dty
+            if dty.startswith("std::result::Result<"):
+                wrap = RESULT
+                inner = (split_generics(dty)[1] or ["?"])[0]
+            elif dty.startswith("std::option::Option<"):
+                wrap = OPTION
+                inner = (split_generics(dty)[1] or ["?"])[0]
+            if inner.startswith("std::vec::Vec<"):
+                kind, meth, path = "vec", "push", "std::vec::Vec::<T, A>::push"
+                ctor = "std::vec::Vec::<T>::new"
+            elif inner.startswith("std::collections::HashSet<"):
+                kind, meth, path = "set", "insert", "std::collections::HashSet::<T, S, A>::insert"
+                ctor = "std::collections::HashSet::<T>::new"
+            elif inner.startswith("std::collections::HashMap<"):
+                kind, meth, path = "map", "insert", "std::collections::HashMap::<K, V, S, A>::insert"
+                ctor = "std::collections::HashMap::<K, V>::new"
+            else:
+                return False
+            bt = base_type(base)
+            acc = B.local(inner, "collected")
+            accref = B.local("&mut " + inner)
+            item_ty = (split_generics(inner)[1] or ["?"])
+
+            def add_call(v_ops, nxt):
+                u = B.local("?")
+                tt = {"k": "call", "def": path, "path": path, "name": meth, "res": path, "args": [M(accref)] + v_ops,
+                      "arg_tys": ["&mut " + inner] + (item_ty if len(v_ops) == len(item_ty) else ["?"] * len(v_ops)), "dest": P(u), "dest_ty": "?",
+                      "t": nxt, "span": span, "fn_span": span, "synthetic": True}
+                return B.block([B.assign(P(accref), B.ref(P(acc), mut=True))], tt)
+
+            def on_item(v, head):
+                if wrap is None:
+                    if kind == "map":
+                        return add_call([{"m": P(v, {"f": "0", "i": 0, "ty": "?"})}, {"m": P(v, {"f": "1", "i": 1, "ty": "?"})}], head.new())
+                    return add_call([M(v)], head.new())
+                # items are Result<T, E> / Option<T>: the first Err / None ends the collection with it
+                good_vi, bad_vi, good_nm, bad_nm = (0, 1, "Ok", "Err") if wrap == RESULT else (1, 0, "Some", "None")
+                payload = variant_payload(P(v), wrap, good_nm, good_vi, "?")
+                inner_v = B.local("?")
+                if kind == "map":
+                    ops = [{"m": P(inner_v, {"f": "0", "i": 0, "ty": "?"})}, {"m": P(inner_v, {"f": "1", "i": 1, "ty": "?"})}]
+                else:
+                    ops = [M(inner_v)]
+                addb = add_call(ops, head.new())
+                take = B.block([B.assign(P(inner_v), B.use({"m": payload}))], B.goto(addb))
+                if wrap == RESULT:
+                    fail = B.block([B.assign(dest, B.agg(RESULT, "Err", 1, [{"m": variant_payload(P(v), RESULT, "Err", 1, "?")}]))], B.goto(cont))
+                else:
+                    fail = B.block([B.assign(dest, B.agg(OPTION, "None", 0, []))], B.goto(cont))
+                st = []
+                term = self._switch_enum(B, st, v, wrap, "?", {good_vi: take, bad_vi: fail})
+                return B.block(st, term)
+
+            def end():
+                if wrap is None:
+                    return B.block([B.assign(dest, B.use(M(acc)))], B.goto(cont))
+                if wrap == RESULT:
+                    return B.block([B.assign(dest, B.agg(RESULT, "Ok", 0, [M(acc)]))], B.goto(cont))
+                return B.block([B.assign(dest, B.agg(OPTION, "Some", 1, [M(acc)]))], B.goto(cont))
+            head = self._pull(B, base, adaptors, on_item, end, dep, stack, bt)
+            init = {"k": "call", "def": ctor, "path": ctor, "name": "new", "res": ctor, "args": [], "arg_tys": [], "dest": P(acc), "dest_ty": inner,
+                    "t": head, "span": span, "fn_span": span, "synthetic": True}
+            ib = B.block([], init)
+            b["term"] = {"k": "goto", "t": ib, "span": span, "sugar_site": t}
+            self.expanded.append((bi, d))
+            return True
+
         if nm == "next" and len(t["args"]) == 1:
             # `for x in pipeline`: next() on an adapted iterator
             ch = self.chain_of(t["args"][0])
@@ -839,7 +917,7 @@ def thread_jumps(blocks):
                         tgt = tg
                 carried.extend(copy.deepcopy(assigns))
                 break
-            if ct and ct["k"] == "goto" and all(s["rv"]["k"] == "use" and not s["lhs"]["p"] for s in assigns) and len(assigns) <= 2:
+            if ct and ct["k"] in ("goto", "drop", "falseedge") and isinstance(ct.get("t"), int) and all(s["rv"]["k"] == "use" and not s["lhs"]["p"] for s in assigns) and len(assigns) <= 2:
                 ok = True
                 for s in assigns:
                     pl = operand_place(s["rv"]["op"])
